@@ -51,7 +51,7 @@ where
             if let Some(i) = graph
                 .next_edge_to(storage, current_index.index)
                 .ok()
-                .filter(|i| i.is_valid())
+                .filter(|i| i.is_valid() && current_index.distance != 0)
             {
                 self.stack.push_front(SearchIndex {
                     index: i,
